@@ -127,6 +127,7 @@ type concVariant struct {
 	Exec       ExecVariant `json:"exec"`
 	FailEncode int         `json:"fail_encode,omitempty"` // the k-th Encode call of every commit fails once
 	FailDecode int         `json:"fail_decode,omitempty"` // the k-th decode call of every preload fails once
+	FailRead   int         `json:"fail_read,omitempty"`   // the k-th ledger read of every preload fails once
 }
 
 // execConc executes tr under cv; commits are scheduled, optionally with one failing encode,
@@ -149,7 +150,7 @@ func execConc(tr *Trace, cv concVariant, stats *Stats) ([]commitPoint, *Violatio
 			v = w.commitWithEncodeFailure(&st, cv, r)
 		case isCommit && cv.Exec.Sched != "" && !freeRunning:
 			v = schedCommit(w, &st, cv.Exec, r)
-		case st.Op == "preload" && cv.FailDecode > 0:
+		case st.Op == "preload" && (cv.FailDecode > 0 || cv.FailRead > 0):
 			v = w.preloadWithDecodeFailure(&st, cv, r)
 		case st.Op == "preload" && cv.Exec.Sched != "" && !freeRunning:
 			st.Workers = cv.Exec.Workers
@@ -233,8 +234,14 @@ func (w *World) preloadWithDecodeFailure(st *Step, cv concVariant, r *Rng) *Viol
 	w.Handles = map[int]any{}
 	// a storage whose decoder can be armed: the world's decoders use w.Ctl
 	w.Ctl.Reset()
-	w.Ctl.FailAt["decode"] = cv.FailDecode
-	fired0 := w.Ctl.Fired["decode"]
+	if cv.FailDecode > 0 {
+		w.Ctl.FailAt["decode"] = cv.FailDecode
+	}
+	if cv.FailRead > 0 {
+		w.Ledger.SetPlan(&FaultPlan{FailReadAt: map[int]bool{cv.FailRead: true}})
+		defer w.Ledger.SetPlan(nil)
+	}
+	fired0 := w.Ctl.Fired["decode"] + w.Ledger.FaultsFired["ledger.read-error"]
 	workers := cv.Exec.Workers
 	if workers <= 0 {
 		workers = st.Workers
@@ -251,15 +258,20 @@ func (w *World) preloadWithDecodeFailure(st *Step, cv concVariant, r *Rng) *Viol
 		atree.VerifYield = nil
 		w.Stats.Add("sched.worker-decisions", s.Decisions)
 		if live != nil {
-			return w.viol("live.deadlock", "BatchPreload with a failing decoder under policy %s: %v", s.policy, live)
+			return w.viol("live.deadlock", "BatchPreload with a failing decoder or ledger read (%+v) under policy %s: %v", cv, s.policy, live)
 		}
 	} else {
 		run()
 	}
-	fired := w.Ctl.Fired["decode"] - fired0
+	fired := w.Ctl.Fired["decode"] + w.Ledger.FaultsFired["ledger.read-error"] - fired0
 	w.Ctl.Reset()
+	w.Ledger.SetPlan(nil)
 	if fired > 0 {
-		w.Stats.Inc("fault.callback.decode")
+		if cv.FailRead > 0 {
+			w.Stats.Inc("fault.ledger.read-error-in-preload")
+		} else {
+			w.Stats.Inc("fault.callback.decode")
+		}
 		if err == nil {
 			return w.viol("conc.error", "BatchPreload whose decoder failed once returned no error")
 		}
@@ -529,11 +541,13 @@ func init() {
 			}
 			for k := 0; k < nv; k++ {
 				cv := concVariant{Exec: ExecVariant{Workers: []int{2, 3, 4, 8, 16, 64}[vr.Intn(6)], Sched: []string{"random", "random", "first", "last", "rr", "starve"}[vr.Intn(6)], Seed: vr.U64()}}
-				switch vr.Intn(4) {
+				switch vr.Intn(5) {
 				case 0:
 					cv.FailEncode = vr.Range(1, 30)
 				case 1:
 					cv.FailDecode = vr.Range(1, 30)
+				case 2:
+					cv.FailRead = vr.Range(1, 14)
 				}
 				a := &c16aux{Mode: "workers", Variant: cv}
 				if v := judgeWorkers(tr, cv, agg); v != nil {
@@ -556,6 +570,7 @@ func init() {
 			prof.RootMapShare = 0.7 // maps use the pooled digesters
 			prof.DigSpec = nil
 			prof.W["m.get"] = 6
+			prof.W["m.setfail"] = 4
 			prof.W["commit"] = 4
 			tr, v := genTrace(cr.Sub("workload"), cfg, prof, cr.Sub("len").Range(10, 60))
 			tr.Seed = seed
